@@ -134,8 +134,14 @@ def equality_test(actual, expected, _exact_strings, _delta):
     # Float comparison
     if ((isinstance(expected, float) and isinstance(actual, (float, int))) or
             (isinstance(actual, float) and isinstance(expected, (float, int)))):
-        error = _delta
-        return abs(expected - actual) < error
+        if expected == actual:
+            # (also two infinities, whose difference is not a number)
+            return True
+        try:
+            return abs(expected - actual) < _delta
+        except OverflowError:
+            # an int too large for a float is not close to any float
+            return False
     # Other numerics
     elif isinstance(expected, Number) and isinstance(actual, Number) and isinstance(expected, type(actual)):
         return expected == actual
